@@ -126,7 +126,7 @@ def explore(ctx, extended=False, focus=None):
                "wrong case, unset) alone; every loadable backend module pre-imported, with and without an environment value; IPython; "
                "then random combinations of pre-imports (several, any order), environment and unloadable modules; distinct = distinct "
                "configurations")
-    cfgs = gen(ctx.rnd, reg, ctx.n(40, 600) * (2 if extended else 1), ctx.thorough())
+    cfgs = gen(ctx.rnd, reg, ctx.n(80, 1200) * (2 if extended else 1), ctx.thorough())
     with cf.ThreadPoolExecutor(14) as pool:
         outs = list(pool.map(run_one, cfgs))
     lines = []
